@@ -51,8 +51,10 @@ func drawFaultCase(t *rapid.T) *core.Case {
 		}
 		c.Series = ds.Series
 		c.Start, c.End, c.Step = w.Start, w.End, w.Step
-		c.Query = rapid.SampledFrom([]string{"m", "sum(m)", "sum by (a) (m)", "rate(m[1m])", "m + m", "topk(3, m)", "-m"}).Draw(t, "bigq")
-		c.Procs = rapid.SampledFrom([]int{1, 2, 4}).Draw(t, "bigprocs")
+		c.Query = rapid.SampledFrom([]string{"m", "sum(m)", "sum by (a) (m)", "rate(m[1m])", "m + m", "topk(3, m)", "-m",
+			"max without (id) (m)", "quantile by (b) (0.5, m)", "bottomk by (a) (2, m)", "sum by (id) (m) + on (id) m", "abs(m)"}).Draw(t, "bigq")
+		// (many series AND many cores: work that is split by GOMAXPROCS only beyond a size threshold)
+		c.Procs = rapid.SampledFrom([]int{1, 2, 4, 8, 12, 16}).Draw(t, "bigprocs")
 	}
 	if os.Getenv("VERIF_TIER") == "thorough" {
 		c.Mode = "thorough"
